@@ -19,7 +19,7 @@ import pyttb as ttb
 
 from harness import gen
 from harness.lib import (Family, Verdict, call, deep_eq, dense_j, drive, jval, ktensor_j, sparse_j,
-                         strip_exc)
+                         sparse_sorted_j, strip_exc)
 
 RULE = ("dense generators (ones / zeros / rand / from_function / diag) on every shape of order 1..4 with at most "
         "64 cells (thorough; a sample plus fixed shapes in quick) in every shape-argument convention, element "
@@ -266,8 +266,20 @@ class DenseGen(Family):
             ic = strip_exc(impl)
             cells = 0 if "ok" not in impl else len(impl["ok"]["data"])
             v = Verdict("ok", "", impl, m, None, tags + ["accepted" if "ok" in impl else "rejected"], "ok" in impl and cells > 1)
-            if not deep_eq(ic, m):
-                out.append(Verdict("violation", f"{k} on shape {s} differs from the proved model", impl, m, None, tags))
+            mismatch = not deep_eq(ic, m)
+            if k in ("ones", "zeros", "rand"):
+                must = bool(s)
+            elif k == "fn":
+                must = bool(s) and c["layout"] != "wrong"
+            else:
+                must = len(c["elements"]) > 0 and len(diag_shape(len(c["elements"]), s)) > 0
+            if "ok" not in impl:
+                if must:
+                    out.append(Verdict("violation", f"{k}: a valid request (shape {s}) was rejected", impl, m, None, tags))
+                elif mismatch:
+                    out.append(Verdict("corr", f"{k} on shape {s}: rejected, the model accepts", impl, m, None, tags))
+                else:
+                    out.append(v)
                 continue
             if "ok" in impl:
                 got = impl["ok"]
@@ -302,6 +314,10 @@ class DenseGen(Family):
                     tags.append("longer" if s is not None and any(N > d for d in s) else "fits")
                 if what:
                     out.append(Verdict("violation", what, impl, m, v.spec, tags))
+                    continue
+                if mismatch:
+                    out.append(Verdict("corr", f"{k} on shape {s} differs from the model (the property holds on this input)",
+                                       impl, m, v.spec, tags))
                     continue
             out.append(v)
         return out
@@ -367,14 +383,13 @@ class Eye(Family):
             ic = strip_exc(impl)
             v = Verdict("ok", "", impl, me, None, tags + ["accepted" if E is not None else "rejected"],
                         E is not None and m >= 2 and n >= 2)
-            if not deep_eq(ic, me):
-                out.append(Verdict("violation", f"teneye({m},{n}) differs from the proved model", impl, me, None, tags))
-                if "ok" in me and E is not None and m >= 2 and n >= 1:
-                    p += len(c["xs"])
-                continue
+            mismatch = not deep_eq(ic, me)
+            has_model_ttsv = "ok" in me and E is not None and m >= 2 and n >= 1
             if E is None:
                 if m % 2 == 0 and m >= 2:
                     v = Verdict("violation", f"teneye({m},{n}) of even order rejected", impl, me, None, tags)
+                elif mismatch:
+                    v = Verdict("corr", f"teneye({m},{n}) rejected, the model accepts", impl, me, None, tags)
                 out.append(v)
                 continue
             what = None
@@ -388,29 +403,33 @@ class Eye(Family):
                     if not np.array_equal(np.transpose(E.data, perm), E.data):
                         what = f"teneye({m},{n}) is not symmetric under the mode permutation {perm}"
                         break
-            # identity action: exact on the model (integer x), numerical on the implementation (unit x)
-            if what is None and m >= 2 and n >= 1:
+            # identity action: exact on the model (integer x), numerical on the implementation
+            if m >= 2 and n >= 1:
                 h = m // 2
                 for x in c["xs"]:
-                    r = second[p]
-                    p += 1
                     xx = sum(t * t for t in x)
                     want = {"ok": [xx ** (h - 1) * t for t in x]}
-                    if not deep_eq(want, r):
-                        what = f"model: ttsv(teneye({m},{n}), x, skip first mode) != (x.x)^(m/2-1) x for x={x}"
-                    y = E.ttsv(np.array(x, dtype=float), skip_dim=0)
-                    y = np.atleast_1d(np.asarray(y, dtype=float))
-                    if not np.allclose(y, np.array(want["ok"], dtype=float), rtol=1e-12, atol=1e-9):
-                        what = f"ttsv(teneye({m},{n}), x, skip first mode) != (x.x)^(m/2-1) x for x={x}"
+                    if has_model_ttsv:
+                        r = second[p]
+                        p += 1
+                        if what is None and not deep_eq(want, r):
+                            what = f"model: ttsv(teneye({m},{n}), x, skip first mode) != (x.x)^(m/2-1) x for x={x}"
+                    if what is None:
+                        y = E.ttsv(np.array(x, dtype=float), skip_dim=0)
+                        y = np.atleast_1d(np.asarray(y, dtype=float))
+                        if not np.allclose(y, np.array(want["ok"], dtype=float), rtol=1e-12, atol=1e-9):
+                            what = f"ttsv(teneye({m},{n}), x, skip first mode) != (x.x)^(m/2-1) x for x={x}"
                 r = np.random.RandomState(c["useed"])
                 for _ in range(4):
                     u = r.standard_normal(n)
                     u /= np.linalg.norm(u)
                     y = np.atleast_1d(np.asarray(E.ttsv(u, skip_dim=0), dtype=float))
-                    if np.max(np.abs(y - u)) > 1e-12:
+                    if what is None and np.max(np.abs(y - u)) > 1e-12:
                         what = f"teneye({m},{n}) does not act as the identity on the unit vector {u.tolist()}"
             if what:
                 v = Verdict("violation", what, impl, me, None, tags)
+            elif mismatch:
+                v = Verdict("corr", f"teneye({m},{n}) differs from the model (symmetric and acts as the identity)", impl, me, None, tags)
             out.append(v)
         return out
 
@@ -577,18 +596,19 @@ class SparseRand(Family):
                 continue
             ic = strip_exc(impl)
             if "ok" in ic:
-                ic = {"ok": {"S": ic["ok"]["S"], "cnt": ic["ok"]["cnt"]}}
+                ic = {"ok": {"S": sparse_sorted_j(ic["ok"]["S"]), "cnt": ic["ok"]["cnt"]}}
+            mc = m if "ok" not in m else {"ok": {"S": sparse_sorted_j(m["ok"]["S"]), "cnt": m["ok"]["cnt"]}}
             if c.get("bad") and "ok" in impl:
                 out.append(Verdict("violation", f"{c['fn']} accepted a malformed request", impl, m, None, tags + ["bad"]))
                 continue
-            if not deep_eq(ic, m):
-                out.append(Verdict("violation", f"{c['fn']} with recorded draws differs from the proved model", impl, m, None, tags))
-                continue
+            mismatch = not deep_eq(ic, mc)
             if "ok" not in impl:
                 nz = self._nz(c)
                 legit = (not c.get("bad")) and (c["density"] is not None or (nz is not None and 0 <= nz <= size))
                 if legit:
                     out.append(Verdict("violation", f"{c['fn']} rejected a request within the tensor size", impl, m, None, tags))
+                elif mismatch:
+                    out.append(Verdict("corr", f"{c['fn']} rejected, the model accepts", impl, m, None, tags))
                 else:
                     out.append(Verdict("ok", "", impl, m, None, tags + ["rejected"], False))
                 continue
@@ -622,9 +642,7 @@ class SparseRand(Family):
                 what = "subscript out of range"
             elif len(set(tset)) != len(tset):
                 what = "repeated subscript"
-            elif tset != sorted(tset):
-                what = "subscripts are not in np.unique order"
-            elif not deep_eq(svals, vals):
+            elif not deep_eq(sorted(svals, key=str), sorted(vals, key=str)):
                 what = "values are not the ones the function returned"
             elif c["vals"] != "intz" and any(x == 0 for x in svals):
                 what = "stored zero"
@@ -641,6 +659,9 @@ class SparseRand(Family):
             v = Verdict("ok", "", impl, m, None, tags, len(subs) > 1)
             if what:
                 v = Verdict("violation", f"{c['fn']}: {what}", impl, m, None, tags)
+            elif mismatch:
+                v = Verdict("corr", f"{c['fn']} with recorded draws differs from the model (well-formed, requested count)",
+                            impl, m, None, tags)
             out.append(v)
         return out
 
@@ -674,6 +695,9 @@ REDUCERS = {
     "np_min": ("min", np.min),
     "np_sum": ("sum", np.sum),
 }
+#: reducers whose value depends on the order in which a group's values are presented (the property speaks
+#: about order-free reducers; for these a disagreement is a correspondence finding, not a violation)
+ORDER_SENSITIVE = {"first", "last", "altsum"}
 PY_REDUCER = {
     "sum": lambda x: sum(x), "max": max, "min": min, "prod": lambda x: math.prod(x), "len": len,
     "first": lambda x: x[0], "last": lambda x: x[-1], "altsum": _altsum,
@@ -792,13 +816,15 @@ class Aggregator(Family):
                 if "ok" in impl and c["bad"] != "long" or ("ok" in impl and len(c["subs"]) > 0 and c["bad"] == "long"):
                     out.append(Verdict("violation", f"from_aggregator accepted a malformed request ({c['bad']})", impl, m, None, tags))
                     continue
-            if not deep_eq(ic, m):
-                out.append(Verdict("violation", "from_aggregator differs from the proved model", impl, m, None, tags))
-                continue
+            icmp = ic if "ok" not in ic else {"ok": sparse_sorted_j(ic["ok"])}
+            mcmp = m if "ok" not in m else {"ok": sparse_sorted_j(m["ok"])}
+            mismatch = not deep_eq(icmp, mcmp)
             if "ok" not in impl:
                 ok_request = (not c.get("bad")) and (c["shape"] is not None or len(c["subs"]) > 0)
                 if ok_request:
                     out.append(Verdict("violation", "from_aggregator rejected a well-formed request", impl, m, None, tags))
+                elif mismatch:
+                    out.append(Verdict("corr", "from_aggregator rejected, the model accepts", impl, m, None, tags))
                 else:
                     out.append(Verdict("ok", "", impl, m, None, tags + ["rejected"], False))
                 continue
@@ -820,16 +846,18 @@ class Aggregator(Family):
                 what = "result is not well-formed (lengths / repeated subscript)"
             elif any(v == 0 for v in S["vals"]):
                 what = "a zero result was stored"
-            elif tset != sorted(tset):
-                what = "subscripts are not in np.unique order"
             elif set(got) != set(spec) or any(not deep_eq(jval(got[k]), jval(spec[k])) for k in spec):
                 what = f"entries are not the {name} of the values stored under each subscript"
             tags.append("dropped" if len(spec) < len(groups) else "kept")
             tags.append("dups" if len(groups) < len(c["subs"]) else "nodups")
             v = Verdict("ok", "", impl, m, {"shape": list(shape), "entries": [[list(k), jval(x)] for k, x in sorted(spec.items())]},
                         tags, len(c["subs"]) > 1)
-            if what:
+            if what and name in ORDER_SENSITIVE and what.startswith("entries"):
+                v = Verdict("corr", "from_aggregator: " + what + " (order-sensitive reducer)", impl, m, v.spec, tags)
+            elif what:
                 v = Verdict("violation", "from_aggregator: " + what, impl, m, v.spec, tags)
+            elif mismatch:
+                v = Verdict("corr", "from_aggregator differs from the model (the property holds on this input)", impl, m, v.spec, tags)
             out.append(v)
         return out
 
@@ -839,12 +867,14 @@ class Aggregator(Family):
         tags = ["sptendiag", "N%s" % ("none" if s is None else len(s)), f"len{N}"]
         ic = strip_exc(impl)
         if "ok" in ic:
-            ic = {"ok": ic["ok"]["sp"]}
-        if not deep_eq(ic, m):
-            return Verdict("violation", "sptendiag differs from the proved model", impl, m, None, tags)
+            ic = {"ok": sparse_sorted_j(ic["ok"]["sp"])}
+        mc = m if "ok" not in m else {"ok": sparse_sorted_j(m["ok"])}
+        mismatch = not deep_eq(ic, mc)
         if "ok" not in impl:
-            return Verdict("violation" if N > 0 and (s is None or all(e > 0 for e in s)) else "ok",
-                           "sptendiag rejected a valid request", impl, m, None, tags + ["rejected"], False)
+            if N > 0 and (s is None or all(e > 0 for e in s)):
+                return Verdict("violation", "sptendiag rejected a valid request", impl, m, None, tags + ["rejected"], False)
+            return Verdict("corr" if mismatch else "ok", "sptendiag rejected, the model accepts" if mismatch else "",
+                           impl, m, None, tags + ["rejected"], False)
         S = impl["ok"]["sp"]
         cs = diag_shape(N, s)
         spec = {tuple([i] * len(cs)): e for i, e in enumerate(c["elements"]) if e != 0} if cs else {}
@@ -866,6 +896,8 @@ class Aggregator(Family):
         tags.append("zero-elt" if any(e == 0 for e in c["elements"]) else "nonzero")
         if what:
             return Verdict("violation", what, impl, m, None, tags)
+        if mismatch:
+            return Verdict("corr", "sptendiag differs from the model (the property holds on this input)", impl, m, None, tags)
         return Verdict("ok", "", impl, m, None, tags, N > 1)
 
     def shrink(self, case):
@@ -921,12 +953,13 @@ class KtensorGen(Family):
         for c, impl, m, rq in zip(cases, impls, models, reqs):
             tags = [f"N{len(c['shape'])}", f"R{c['R']}", c["fn"], "bad=%s" % c["bad"]]
             ic = strip_exc(impl)
-            if not deep_eq(ic, m):
-                out.append(Verdict("violation", "ktensor.from_function differs from the proved model", impl, m, None, tags))
-                continue
+            mismatch = not deep_eq(ic, m)
             if "ok" not in impl:
-                out.append(Verdict("violation" if not c["bad"] else "ok", "ktensor.from_function rejected a valid request",
-                                   impl, m, None, tags, False))
+                if not c["bad"]:
+                    out.append(Verdict("violation", "ktensor.from_function rejected a valid request", impl, m, None, tags, False))
+                else:
+                    out.append(Verdict("corr" if mismatch else "ok", "rejected, the model accepts" if mismatch else "",
+                                       impl, m, None, tags, False))
                 continue
             K = impl["ok"]
             what = None
@@ -938,7 +971,12 @@ class KtensorGen(Family):
                 what = "factor matrices are not the arrays the function returned, in mode order"
             elif [len(f) for f in K["factors"]] != c["shape"]:
                 what = "wrong shape"
-            out.append(Verdict("violation", what, impl, m, None, tags) if what else Verdict("ok", "", impl, m, None, tags, c["R"] > 0))
+            if what:
+                out.append(Verdict("violation", what, impl, m, None, tags))
+            elif mismatch:
+                out.append(Verdict("corr", "ktensor.from_function differs from the model", impl, m, None, tags))
+            else:
+                out.append(Verdict("ok", "", impl, m, None, tags, c["R"] > 0))
         return out
 
 
